@@ -1,6 +1,7 @@
 package main
 
 import (
+	"strconv"
 	"fmt"
 	"go/types"
 	"strings"
@@ -49,8 +50,31 @@ func ifaceName(t types.Type) string {
 	return t.String()
 }
 
+// fnNameOverride re-binds functions to contract keys: when closures are renumbered, or a closure / a
+// function is extracted or renamed, the contract written for "F$2" follows the function it describes
+// (matched by its captured variables and parameters, see rebindContracts).
+var fnNameOverride = map[*ssa.Function]string{}
+
 // qualFnName: package-short-qualified function key, e.g. service.(*natmap).Add$1, io.Copy
 func qualFnName(fn *ssa.Function) string {
+	if n, ok := fnNameOverride[fn]; ok {
+		return n
+	}
+	if p := fn.Parent(); p != nil && len(fnNameOverride) > 0 {
+		for q := p; q != nil; q = q.Parent() {
+			if _, ok := fnNameOverride[q]; ok {
+				for i, a := range p.AnonFuncs {
+					if a == fn {
+						return qualFnName(p) + "$" + strconv.Itoa(i+1)
+					}
+				}
+			}
+		}
+	}
+	return rawFnName(fn)
+}
+
+func rawFnName(fn *ssa.Function) string {
 	root := fn
 	for root.Parent() != nil {
 		root = root.Parent()
@@ -70,7 +94,10 @@ func (c *Ctx) contractFor(name string) *FuncContract {
 	if name == "" {
 		return nil
 	}
-	return c.eng.contracts.funcs[name]
+	if fc := c.eng.contracts.funcs[name]; fc != nil && !fc.Detached {
+		return fc
+	}
+	return nil
 }
 
 // execCall handles a call instruction. Returns forked states (inlined callees with several return paths).
